@@ -166,7 +166,7 @@ def gen_case(ch):
             return None
         return dict(kind="candidate_invalid", arg=arg, klass=klass, picks=[ch.int(0, 4000) for _ in range(36)])
     spec = T.gen_valid_table(ch)
-    n = ch.int(1, 60)
+    n = ch.int(0, 60)
     case = dict(kind="strings", table=spec, picks=[ch.int(0, 4000) for _ in range(n)])
     if ch.bool(40):
         case["prefer"] = G.gen_live(ch, T.table_dict(spec), max_len=60, frag_percent=0)
@@ -177,4 +177,8 @@ def gen_case(ch):
 
 
 def shard(ctx):
+    if ctx.shard == 0:
+        # the shortest sequences over the alphabet: the empty one and every single member (the latter is part of the alphabet contract)
+        for spec in ("default", "octet_rule", "hypervalent", {"?": 3, "C": 4, "Fe+3": 2}):
+            ctx.check(dict(kind="strings", table=spec, picks=[]))
     ctx.drive("main", gen_case, ctx.n(1500, 25000), max_bytes=1200)
